@@ -25,6 +25,7 @@ type Clause struct {
 	Text string
 	Src  string
 	Auto bool
+	Tag  string // property group that checks this clause (empty: the structural group)
 }
 
 type LoopSpec struct {
@@ -99,6 +100,20 @@ func normText(s string) string {
 
 func parseClause(s string) (Clause, error) {
 	s = strings.TrimSpace(s)
+	tag := ""
+	if strings.HasPrefix(s, "@") {
+		i := strings.IndexAny(s, " \t")
+		if i > 0 {
+			tag = s[1:i]
+			s = strings.TrimSpace(s[i+1:])
+		}
+	}
+	c, err := parseClause0(s)
+	c.Tag = tag
+	return c, err
+}
+
+func parseClause0(s string) (Clause, error) {
 	e, err := parser.ParseExpr(s)
 	if err != nil {
 		return Clause{}, fmt.Errorf("cannot parse %q: %v", s, err)
@@ -1141,6 +1156,9 @@ func (env *SpecEnv) evalCall(x *ast.CallExpr) (SV, error) {
 		return SV{S: sf.Ret, V: Val{C: []string{t}}}, nil
 	}
 	if h, ok := specBuiltins[name]; ok {
+		return h(env, x)
+	}
+	if h, ok := specBuiltinsExtra[name]; ok {
 		return h(env, x)
 	}
 	return SV{}, fmt.Errorf("unknown spec function %s", exprString(x.Fun))
